@@ -14,6 +14,7 @@ import json, os, re, subprocess, sys, time, glob, shutil, concurrent.futures, ha
 VERIF = os.path.dirname(os.path.dirname(os.path.abspath(__file__)))
 HARNESS = os.path.join(VERIF, "harness")
 QXV = os.path.join(HARNESS, "target", "debug", "qxv")
+QUIZX_BIN = os.path.join(HARNESS, "target", "debug", "quizx")
 MC = os.path.join(VERIF, "mc")
 SPEC = os.path.join(VERIF, "spec")
 WORK = os.path.join(VERIF, "work")
@@ -40,6 +41,12 @@ def build_harness():
     if p.returncode != 0:
         log(p.stdout[-4000:])
         raise ToolError("harness build failed (does /repo still compile?)")
+    # the command-line binary of the repository itself, same tree, same cfg
+    p = subprocess.run(["cargo", "build", "--offline", "-p", "quizx", "--bin", "quizx"], cwd=HARNESS, env=env,
+                       stdout=subprocess.PIPE, stderr=subprocess.STDOUT, text=True)
+    if p.returncode != 0:
+        log(p.stdout[-4000:])
+        raise ToolError("quizx binary build failed")
     return time.time() - t0
 
 
@@ -146,6 +153,7 @@ def validate_shard(prop, module, cfg, shard, timeout, idx):
 def validate(prop, module, cfg, prefix, timeout=3600, par=None):
     shards = sorted(glob.glob(prefix + ".*.ndjson"))
     par = par or min(NCPU, len(shards))
+    # longest-first is unknown, so simply run more shards than cores for balance
     with concurrent.futures.ThreadPoolExecutor(max_workers=par) as ex:
         futs = [ex.submit(validate_shard, prop, module, cfg, s, timeout, i) for i, s in enumerate(shards)]
         return [f.result() for f in futs]
@@ -162,7 +170,7 @@ def context_of(lines, lno):
     i = lno - 1
     while i >= 0:
         e = json.loads(lines[i])
-        if e.get("k") == "reset":
+        if e.get("k") in ("reset", "pair", "circ", "begin"):
             return e, ev
         i -= 1
     return None, ev
